@@ -318,7 +318,8 @@ class Prog:
             self.restart()
             return "restart"
         diff = [k for k in variant if variant[k] != old.get(k)]
-        only_vars = diff and all(any(v["name"] == k for v in self.spec["vars"]) for k in diff)
+        only_vars = diff and all(any(v["name"] == k and v.get("access") != "alias" for v in self.spec["vars"]) for k in diff)
+        # (a variable imported under another name cannot be updated by assigning the original name: such edits are reloads)
         if only_vars and not self.spec.get("no_assign"):
             for k in diff:
                 v = S._var(self.spec, k)
